@@ -858,11 +858,51 @@ func extFnvWrite(fr *frame, a []value, name string) value {
 		return notHandled{}
 	}
 	st := liftVal(*p)
-	for _, b := range data {
-		st = mkUF(name, 64, false, st, mkConv(liftVal(b), 64, false))
+	if x := leWord64(data); x != nil {
+		// the eight little-endian bytes of one 64-bit word (binary.Write of a hash value):
+		// one application over the word instead of eight over its bytes keeps div/mod
+		// (INT) and extracts (BV) out of the solver
+		st = mkUF(name+"x8", 64, false, st, x)
+	} else {
+		for _, b := range data {
+			st = mkUF(name, 64, false, st, mkConv(liftVal(b), 64, false))
+		}
 	}
 	*p = termToValue(st)
 	return tuple{len(data), iface{}}
+}
+
+// leWord64 recognises data as byte(x), byte(x>>8), ..., byte(x>>56) of one 64-bit term x.
+func leWord64(data []value) *Term {
+	if len(data) != 8 {
+		return nil
+	}
+	var x *Term
+	for k, b := range data {
+		t, ok := b.(*Term)
+		if !ok || t.op != OpConv || t.w != 8 {
+			return nil
+		}
+		src := t.args[0]
+		if k > 0 {
+			if src.op != OpShr || !src.args[1].isConst() || src.args[1].c != uint64(8*k) {
+				return nil
+			}
+			src = src.args[0]
+		}
+		if src.w != 64 {
+			return nil
+		}
+		if x == nil {
+			x = src
+		} else if !termEqual(x, src) {
+			return nil
+		}
+	}
+	if x.signed {
+		x = mkConv(x, 64, false)
+	}
+	return x
 }
 
 // extSortSlice implements sort.Slice / sort.SliceStable (which use reflect) as a
